@@ -248,8 +248,12 @@ def _copystate(ctx, repo):
                     if ok:
                         d = star[0]
                         defs = local_defs(f, d.id) if isinstance(d, ast.Name) else []
-                        ok = len(defs) == 1 and norm(defs[0]) in (f"dict(self._{a.kwarg.arg})", f"self._{a.kwarg.arg}.copy()", f"{{**self._{a.kwarg.arg}}}") and \
-                            any(isinstance(u, ast.Call) and norm(u.func) == f"{d.id}.update" and u.args and norm(u.args[0]) == (f.node.args.kwarg.arg if f.node.args.kwarg else "") for u in ast.walk(f.node))
+                        own_kw = f.node.args.kwarg.arg if f.node.args.kwarg else ""
+                        ok = len(defs) == 1 and ((norm(defs[0]) in (f"dict(self._{a.kwarg.arg})", f"self._{a.kwarg.arg}.copy()", f"{{**self._{a.kwarg.arg}}}") and
+                                                  any(isinstance(u, ast.Call) and norm(u.func) == f"{d.id}.update" and u.args and norm(u.args[0]) == own_kw for u in ast.walk(f.node)))
+                                                 or norm(defs[0]) == f"{{**self._{a.kwarg.arg}, **{own_kw}}}")
+                        if not ok and isinstance(d, ast.Dict):
+                            ok = norm(d) == f"{{**self._{a.kwarg.arg}, **{own_kw}}}"
                     ctx.check(ok, "R-COPYSTATE", f"{cname}.{mname}: previously fixed variables are merged with the new ones (copy, then update)", f, c,
                               "replacing instead of merging forgets the variables fixed by an earlier slice: two-step slicing then fails or leaves them free")
     return n
